@@ -304,7 +304,7 @@ func structNames(ty reflect.Type) []string {
 var scalarTypes = []string{"int8", "int16", "int32", "int64", "int", "uint8", "uint16", "uint32", "uint64", "uint", "float32", "float64", "string", "bool", "any"}
 var namedTypes = []string{"MyInt", "MyI64", "MyU8", "MyF64", "MyStr", "MyBool"}
 var containerTypes = []string{"[]int", "[]int8", "[]uint8", "[]uint16", "[]int64", "[]float32", "[]float64", "[]string", "[]bool", "[]any", "[][]int", "[]Inner", "IntSl", "[3]int",
-	"map[string]int", "map[string]int8", "map[string]uint16", "map[string]float32", "map[string]float64", "map[string]string", "map[string]bool", "map[string]any", "map[string][]int", "map[int]string", "map[int]int", "StrIntM",
+	"map[string]int", "map[string]int8", "map[string]uint16", "map[string]float32", "map[string]float64", "map[string]string", "map[string]bool", "map[string]any", "map[string][]int", "map[int]string", "map[int]int", "StrIntM", "Hdr", "map[KStr]int", "map[KInt]string", "map[KStr]MyStr", "map[string]MyInt", "[]MyInt",
 	"S", "*S", "Inner", "*Inner", "TwinA", "TwinB", "*TwinA", "*TwinB", "*int", "*int8", "*string", "*float32", "*[3]int",
 	"func(int)int", "func(int8)int8", "func(string)string", "func(float64)float32", "func()", "func(int)(int,string)", "error"}
 
@@ -523,6 +523,7 @@ var histContainers = []contSpec{
 	{Kind: "map", T: "map[string]int"}, {Kind: "map", T: "map[string]int8"}, {Kind: "map", T: "map[string]uint16"}, {Kind: "map", T: "map[string]float32"},
 	{Kind: "map", T: "map[string]float64"}, {Kind: "map", T: "map[string]string"}, {Kind: "map", T: "map[string]bool"}, {Kind: "map", T: "map[string]any"},
 	{Kind: "map", T: "map[int]string"}, {Kind: "map", T: "map[int8]string"}, {Kind: "map", T: "map[uint16]int"}, {Kind: "map", T: "StrIntM"}, {Kind: "map", T: "StrIntM"}, {Kind: "map", T: "Hdr"}, {Kind: "map", T: "Hdr"}, {Kind: "map", T: "Hdr"},
+	{Kind: "map", T: "map[KStr]int"}, {Kind: "map", T: "map[KStr]int"}, {Kind: "map", T: "map[KInt]string"}, {Kind: "map", T: "map[KStr]MyStr"}, {Kind: "map", T: "map[string]MyInt"}, {Kind: "slice", T: "[]MyInt"},
 	{Kind: "slice", T: "[]int"}, {Kind: "slice", T: "[]int8"}, {Kind: "slice", T: "[]uint16"}, {Kind: "slice", T: "[]int64"}, {Kind: "slice", T: "[]float32"},
 	{Kind: "slice", T: "[]float64"}, {Kind: "slice", T: "[]string"}, {Kind: "slice", T: "[]bool"}, {Kind: "slice", T: "[]any"}, {Kind: "slice", T: "IntSl"},
 	{Kind: "parray", T: "*[3]int"}, {Kind: "parray", T: "*[4]int"}, {Kind: "parray", T: "*[3]int8"}, {Kind: "parray", T: "*[3]string"}, {Kind: "parray", T: "*[3]float32"},
